@@ -2,7 +2,8 @@
    Only statements closed by `exact`; the proofs live in Crypto/CryptoProofs.v (and CryptoSymProofs.v).
    The standards' known answers for every specification used below are checked in Crypto/CryptoKAT.v. *)
 From Coq Require Import List NArith ZArith Arith.
-From MV Require Import Crypto.CryptoPrims Crypto.CryptoSpec Crypto.CryptoModel Crypto.CryptoProofs Crypto.CryptoKAT.
+From MV Require Import Crypto.CryptoPrims Crypto.CryptoSpec Crypto.CryptoModel Crypto.CryptoProofs Crypto.CryptoKAT
+                       Crypto.CryptoSym Crypto.CryptoSymModel Crypto.CryptoSymProofs.
 Import ListNotations.
 
 (* ---- digests: Init; Update(chunk_1); ...; Update(chunk_n); Final equals the one-shot FIPS 180-4 /
@@ -101,3 +102,101 @@ Theorem c12_pbkdf2_eq : forall (pw salt : list N) (rounds : Z) (kLen : nat),
   pbkdf2_sha1 pw salt rounds kLen = Ok (pbkdf2_sha1_spec pw salt (Z.to_nat rounds) kLen).
 Proof. exact pbkdf2_sha1_eq. Qed.
 Print Assumptions c12_pbkdf2_eq.
+
+(* ---- CBC (aesCBC.c), for any block cipher E with inverse D on 16-byte blocks (Section hypotheses of
+   CryptoSymProofs.v, instantiated in the run by the Gallina AES that passes the FIPS 197 vectors) *)
+Section C12_CBC.
+  Variable E D : list N -> list N.
+  Hypothesis Elen : forall b, length (E b) = 16.
+  Hypothesis Dlen : forall b, length (D b) = 16.
+  Hypothesis DE : forall b, length b = 16 -> D (E b) = b.
+
+  (* every way of cutting whole blocks into successive psAesEncryptCBC calls, in place or not, yields
+     SP 800-38A's ciphertext of the concatenation (and leaves its last block as the next IV) *)
+  Theorem c12_cbc_chunks : forall (chunks : list (list N)) (inplace : bool) (iv : list N),
+    Forall (fun c => length c mod 16 = 0) chunks ->
+    fst (cbc_encrypt_calls E inplace iv chunks) = cbc_encrypt_spec E (length (concat chunks) / 16) iv (concat chunks).
+  Proof. intros. rewrite (cbc_encrypt_calls_spec E Elen) by assumption. reflexivity. Qed.
+
+  (* in place = out of place, encryption and decryption, any number of blocks, any state *)
+  Theorem c12_cbc_inplace_eq : forall n inp outs iv,
+    cbc_enc_blocks E n true inp outs iv = cbc_enc_blocks E n false inp outs iv /\
+    cbc_dec_blocks D n true inp outs iv = cbc_dec_blocks D n false inp outs iv.
+  Proof. exact (fun n inp outs iv => conj (cbc_enc_inplace_eq E n inp outs iv) (cbc_dec_inplace_eq D n inp outs iv)). Qed.
+
+  (* decrypt (encrypt m) = m: on the specification and through the modelled calls *)
+  Theorem c12_cbc_inverse : forall n iv pt, length iv = 16 -> length pt = 16 * n ->
+    cbc_decrypt_spec D n iv (cbc_encrypt_spec E n iv pt) = pt.
+  Proof. exact (cbc_inverse E D Elen DE). Qed.
+
+  Theorem c12_cbc_model_roundtrip : forall chunks ip1 ip2 iv,
+    length iv = 16 -> Forall (fun c => length c mod 16 = 0) chunks ->
+    fst (cbc_decrypt_call D ip2 iv (fst (cbc_encrypt_calls E ip1 iv chunks))) = concat chunks.
+  Proof. exact (cbc_model_roundtrip E D Elen Dlen DE). Qed.
+End C12_CBC.
+Print Assumptions c12_cbc_chunks.
+Print Assumptions c12_cbc_inplace_eq.
+Print Assumptions c12_cbc_inverse.
+Print Assumptions c12_cbc_model_roundtrip.
+
+(* ---- GCM (aesGCM.c).  Proved for all inputs: however plaintext / ciphertext is cut into
+   psAesEncryptGCM / psAesDecryptGCMtagless calls, context, output and tag are those of one call on the
+   concatenation (byte-wise CTR with its partial counter block, the lazy 128-byte GHASH buffer and the
+   bit counters all commute with the cut).  The tag handling, the (fixed) length counters and the (fixed)
+   key-stream restart follow.  NOT proved (correspondence-only, `_partial` below): that the one-call model
+   equals SP 800-38D's GCTR/GHASH definition - the run checks model = spec = library on every case. *)
+Theorem c12_gcm_chunks : forall key iv aad (d : list N) (chunks : list (list N)) t,
+  aes_gcm_encrypt key iv aad (d :: chunks) t = aes_gcm_encrypt key iv aad [concat (d :: chunks)] t.
+Proof. exact aes_gcm_encrypt_chunks. Qed.
+Print Assumptions c12_gcm_chunks.
+
+Theorem c12_gcm_decrypt_chunks : forall key iv aad (d : list N) (chunks : list (list N)) last tag,
+  aes_gcm_decrypt2 key iv aad (d :: chunks) last tag = aes_gcm_decrypt2 key iv aad [] (concat (d :: chunks) ++ last) tag.
+Proof. exact aes_gcm_decrypt2_chunks. Qed.
+Print Assumptions c12_gcm_decrypt_chunks.
+
+(* the same at the level of one context in any state (any block cipher E) *)
+Theorem c12_gcm_crypt_chunks : forall E c (d : list N) (chunks : list (list N)) enc,
+  length (g_ibuf c) <= 128 ->
+  gcm_fold_crypt E c (d :: chunks) enc = gcm_crypt E c (concat (d :: chunks)) enc.
+Proof. exact gcm_chunks_eq. Qed.
+Print Assumptions c12_gcm_crypt_chunks.
+
+(* tagBytes <= 16: the tag handed out is MSB_t of the full tag *)
+Theorem c12_gcm_taglen_partial : forall E c t, t <= 16 ->
+  gcm_get_tag E c t = Ok (gcm_after_tag E c t, firstn t (gcm_full_tag E c)) /\
+  length (firstn t (gcm_full_tag E c)) <= t.
+Proof. exact gcm_get_tag_prefix. Qed.
+Print Assumptions c12_gcm_taglen_partial.
+
+(* decryption releases the plaintext iff the first |tag| bytes of the computed tag equal the received
+   tag: any changed bit within tagLen bytes is a failure, and exactly tagLen bytes are compared *)
+Theorem c12_gcm_tag_compare_partial : forall E c ct tag,
+  0 < length tag <= 16 ->
+  let c1 := fst (gcm_crypt E c ct false) in let pt := snd (gcm_crypt E c ct false) in
+  gcm_decrypt E c ct tag = Ok (if bytes_eqb (firstn (length tag) (gcm_full_tag E c1)) tag then Some pt else None) /\
+  gcm_decrypt2 E c ct tag = Ok (if bytes_eqb (firstn (length tag) (gcm_full_tag E c1)) tag then Some pt else None) /\
+  (bytes_eqb (firstn (length tag) (gcm_full_tag E c1)) tag = true <-> firstn (length tag) (gcm_full_tag E c1) = tag).
+Proof.
+  intros E c ct tag H. split; [exact (gcm_decrypt_tag E c ct tag H)|].
+  exact (gcm_decrypt2_tag E c ct tag (proj2 H)).
+Qed.
+Print Assumptions c12_gcm_tag_compare_partial.
+
+(* the FIXED 64-bit length counter is exact; the unfixed one was not (witnesses replayed on the library) *)
+Theorem c12_gcm_count_exact : forall lo hi n,
+  let r := gcm_count_add lo hi n in
+  (snd r * 2 ^ 32 + fst r = (hi * 2 ^ 32 + lo + 8 * n) mod 2 ^ 64)%N /\ (fst r < 2 ^ 32)%N /\ (snd r < 2 ^ 32)%N.
+Proof. exact gcm_count_add_exact. Qed.
+Print Assumptions c12_gcm_count_exact.
+
+Theorem c12_gcm_count_unfixed_refuted :
+  gcm_count_add_unfixed (2 ^ 31 - 128) 0 16 <> gcm_count_add (2 ^ 31 - 128) 0 16 /\
+  gcm_count_add_unfixed 0 0 (2 ^ 28 + 16) <> gcm_count_add 0 0 (2 ^ 28 + 16).
+Proof. exact gcm_count_unfixed_refuted. Qed.
+Print Assumptions c12_gcm_count_unfixed_refuted.
+
+(* the FIXED psAesReadyGCM restarts the key stream at a block boundary whatever the context did before *)
+Theorem c12_gcm_ready_resets : forall c iv aad, g_ocnt (gcm_ready c iv aad) = 0.
+Proof. exact gcm_ready_resets. Qed.
+Print Assumptions c12_gcm_ready_resets.
